@@ -164,6 +164,8 @@ def r15_2(ctx) -> None:
             r0 = s.node.args[0]
             txt = norm(r0)
             good = txt == f"{sn}.header_registry"
+            if not good and not isinstance(r0, ast.Name):
+                good = _registry_roots_ok(r0, sn)
             if not good and isinstance(r0, ast.Name):
                 # every definition of the local is built from the *instance* registry (+ the model's own table) only:
                 # a value fetched from anywhere else (a cache shared between instances, a module table) is refused
@@ -190,8 +192,8 @@ def r15_2(ctx) -> None:
                    and n.args and norm(n.args[0]).endswith(".more_header_registry")]
             if not upd:
                 # literal union forms: {**self.header_registry, **alg.more_header_registry} / a | b
-                upd = [n for n in fn_nodes(fn) if isinstance(n, ast.Assign) and isinstance(n.value, (ast.Dict, ast.BinOp))
-                       and any(isinstance(x, ast.Attribute) and x.attr == "more_header_registry" for x in ast.walk(n.value))]
+                upd = [n for n in fn_nodes(fn) if isinstance(n, (ast.Dict, ast.BinOp)) and not isinstance(getattr(n, "op", None), (ast.Add, ast.Sub, ast.Mod))
+                       and any(isinstance(x, ast.Attribute) and x.attr == "more_header_registry" for x in ast.walk(n))]
             ctx.check(bool(upd), "R15.2", fn, fn.node, f"{fn.short} :: union registry", "strict check does not admit the algorithm's own parameters", "allowed = instance registry + more_header_registry",
                       construct="union registry")
     for fn in overrides:
